@@ -37,10 +37,19 @@ class CaseRun(object):
             if not mc.mod_is_valid(exp, mod):
                 self.skipped_mods += 1
                 continue
-            mc.apply_mod(m, mod)
+            before = mk
+            m = mc.apply_mod(m, mod)
             exp.apply(mod)
             mk = json.loads(json.dumps(m.markup))
-            self._faithful(exp, mk, m, 'after modification %d: %s' % (i, mod[0]))
+            stage = 'after modification %d: %s' % (i, ' '.join(str(x) for x in mod[:2]) if mod[0] in ('observe', 'clone') else mod[0])
+            self._faithful(exp, mk, m, stage)
+            if mod[0] in ('observe', 'clone'):
+                # a read-only observer leaves the markup as it was; a pickled / deep-copied machine exports
+                # what the original exported
+                d = mc.diff_paths(mc.strip_ids(before), mc.strip_ids(mk))
+                if d:
+                    self.failures.append(('monitor', 'current.markup-changed-by-' + ('observer' if mod[0] == 'observe' else 'restore'),
+                                          {'stage': stage, 'differences': [[p, a, b] for p, a, b in d[:6]]}, None))
         codec = mc.Codec(desc['hier'], desc['opts']['model_attribute'])
         wst, wtr = mc.whitelist_codes()
         self.request = ('c14', [len(wst)] + wst + [len(wtr)] + wtr + codec.cfg(m))
@@ -253,6 +262,47 @@ def shrink_steps(case):
             yield mk(c)
 
 
+def valid_desc(d):
+    """a shrunk description must still be one the generator could have produced: every referenced state exists
+    (the library creates a missing initial state silently and resolves sources lazily, which would turn the
+    replay into a different, spurious disagreement with the expected view)"""
+    names = set(mc.all_names(d['states']))
+    tops = set(s['name'] for s in d['states'])
+    if d['initial'] not in tops:
+        return False
+    later = set(names)
+    for m in d['mods']:
+        if m[0] == 'add_state':
+            later |= set(mc.all_names([m[1]]))
+        elif m[0] == 'add_states':
+            later |= set(mc.all_names(m[1]))
+
+    def refs_ok(t, pool):
+        srcs = t['source'] if isinstance(t['source'], list) else [t['source']]
+        return all(x in pool or x == '*' for x in srcs) and (t['dest'] in pool or t['dest'] in (None, '='))
+    if not all(refs_ok(t, names) for t in d['transitions']):
+        return False
+    for m in d['mods']:
+        if m[0] == 'add_transition' and not refs_ok(m[1], later):
+            return False
+        if m[0] in ('state_cb', 'helper_cb') and m[2] not in later:
+            return False
+        if m[0] in ('trigger', 'observe') and m[1 if m[0] == 'trigger' else 2] >= len(d['models']):
+            return False
+    for md in d['models']:
+        if md['initial'] is not None and md['initial'] not in names:
+            return False
+    for st in list(mc._walk(d['states'])) + [x for m in d['mods'] if m[0] in ('add_state', 'add_states')
+                                             for x in mc._walk([m[1]] if m[0] == 'add_state' else m[1])]:
+        kids = set(c['name'] for c in st['children'])
+        ini = st['initial'] if isinstance(st['initial'], list) else ([st['initial']] if st['initial'] is not None else [])
+        if not all(i in kids for i in ini):
+            return False
+        if not all(t['source'] in kids and (t['dest'] in kids or t['dest'] is None) for t in st['transitions']):
+            return False
+    return all(h[0] < len(d['models']) for h in d['history'])
+
+
 def rejudge(case, model=True):
     return run_batch([case['desc']], model=model)[0]
 
@@ -270,7 +320,8 @@ class C14(runner.Check):
             'machines with diagram support (GraphMachine/HierarchicalGraphMachine, mermaid), 1-3 models incl. '
             'the machine itself, 0-9 later modifications: add_states (single definitions and lists mixing compound and '
             'plain ones)/add_transition/remove_transition/dynamic callback '
-            'registration/model moves) x histories of 6-14 triggers; a case is non-trivial when a state slot and a '
+            'registration/model moves/read-only observers (diagram rendering incl. region of interest, get_transitions, '
+            'may_trigger, markup reads)/pickle and deepcopy restores) x histories of 6-14 triggers; a case is non-trivial when a state slot and a '
             'transition slot hold callbacks and the history executes at least one transition; distinct = different '
             'description')
     trusted = ('hand-written model lean/Model/Markup.lean tied to /repo by equality of the encoded markup '
@@ -300,7 +351,7 @@ class C14(runner.Check):
         technique="Lean 4 proof (mutual structural induction over the state tree, dict-regrouping lemma, dirty-flag "
                   "invariant) + differential correspondence + Python property oracle + behavioural differential")
 
-    streams = (('mixed', (16, 450), (64, 800)), ('clean', (16, 200), (32, 600)))
+    streams = (('mixed', (16, 360), (64, 800)), ('clean', (16, 160), (32, 600)))
 
     def explore(self, tier, seed):
         # whitelist hypotheses of C14_faithful_state / C14_faithful_transition_fields / C14_roundtrip_markup
@@ -349,7 +400,7 @@ class C14(runner.Check):
         corr = [f for f in failures if f.kind != 'monitor']
         for f in (unlisted[:1] or [c for c in corr if c.case.get('desc')][:1]):
             key = (f.kind, f.what, f.signature)
-            f.case = runner.shrink(f.case, self.fails_like(f.kind, f.what, f.signature), shrink_steps, budget=300)
+            f.case = runner.shrink(f.case, self.fails_like(f.kind, f.what, f.signature), shrink_steps, budget=200)
             r = rejudge(f.case)
             for kind, what, details, sig in r.failures:
                 if (kind, what, sig) == key:
@@ -360,6 +411,8 @@ class C14(runner.Check):
         needs_model = kind != 'monitor' or what == 'roundtrip.inside-theorem-domain'
 
         def f(case):
+            if not valid_desc(case['desc']):
+                return False
             try:
                 r = rejudge(case, model=needs_model)
             except common.MachineryError:
